@@ -602,7 +602,7 @@ fn after_issue<I: HasIdentityObjectFields<IpPairing, ArCurve, AttributeKind>>(
             out(rec);
             if ver != "OK" { continue; }
             // ---- anonymity revocation of idCredPub from this credential
-            if icp_done < 2 || env.thorough {
+            if icp_done < 2 || (env.thorough && cfg.n <= 5) {
                 icp_done += 1;
                 let dec: Vec<(ArIdentity, Message<ArCurve>)> = ids.iter().map(|id| (*id, ars_keys[id].decrypt(&cdi.values.ar_data[id].enc_id_cred_pub_share))).collect();
                 let want = g.mul_by_scalar(&id_use_data.aci.cred_holder_info.id_cred.id_cred_sec);
@@ -714,7 +714,7 @@ fn sharegen(seed: u64, n: u64) {
     let mut env = new_env(seed, 0x5a5a, false);
     let g = env.global.on_chain_commitment_key.g;
     for i in 0..n {
-        let nn = match i % 5 { 0 => 1 + env.r.below(3) as u8, 1 => 1 + env.r.below(6) as u8, 2 => 1 + env.r.below(10) as u8, 3 => 5, _ => 1 + env.r.below(25) as u8 };
+        let nn = match i % 5 { 0 => 1 + env.r.below(3) as u8, 1 => 1 + env.r.below(6) as u8, 2 => 1 + env.r.below(10) as u8, 3 => 5, _ => if i % 25 == 24 { 1 + env.r.below(25) as u8 } else { 1 + env.r.below(8) as u8 } };
         let t = match env.r.below(4) { 0 => nn, 1 => 1, _ => 1 + env.r.below(nn as u64) as u8 };
         let contiguous = env.r.chance(1, 4);
         let pts = gen_ids(&mut env.r, nn, contiguous);
